@@ -49,11 +49,37 @@ func notFound(err error) bool { return errors.Is(err, db.ErrKeyNotFound) }
 type checker struct {
 	n    *Node
 	m    *Model
-	prop string // class prefix for violations
+	soft bool // collect the first mismatch instead of failing the run (see try)
 }
 
+type mismatch struct{ class, key, detail string }
+
+type softFail struct{ m mismatch }
+
 func (k *checker) fail(class, key, format string, a ...any) {
-	k.n.c.Fail(class, key, "["+k.n.Name+backendName(k.n)+"] "+format, a...)
+	d := fmt.Sprintf("["+k.n.Name+backendName(k.n)+"] "+format, a...)
+	if k.soft {
+		panic(softFail{mismatch{class, key, d}})
+	}
+	k.n.c.Fail(class, key, "%s", d)
+}
+
+// try runs f with the checker in soft mode and returns the first mismatch (nil: all equal).
+func (k *checker) try(f func()) (res *mismatch) {
+	old := k.soft
+	k.soft = true
+	defer func() {
+		k.soft = old
+		if r := recover(); r != nil {
+			sf, ok := r.(softFail)
+			if !ok {
+				panic(r)
+			}
+			res = &sf.m
+		}
+	}()
+	f()
+	return nil
 }
 
 func backendName(n *Node) string {
